@@ -24,7 +24,7 @@ RULE = (
 LEVEL_TEXT = ("Differential exploration against an independent evaluator: the operator-combination space up to three operators is enumerated systematically, deeper trees are sampled; "
               "each expression is observed through every context that can lex its operators.")
 LEVEL_NOTE = ("Trusted: vlib/model/expr.py (self-tested against Python's own evaluator on all operator pairs). `|` and `~` are not lexed by the directive-context scanner, so trees using them are only "
-              "observed in operand contexts; shift counts 0..40, ~ only on 0..2^32-1, no '/', '%', '^', comparison operators, octal or upper-case 0X/0B prefixes (not in the statement).")
+              "observed in operand contexts; shift counts 0..40 in generated trees and up to 4097 in the enumerated wide-shift cases, ~ only on 0..2^32-1, no '/', '%', '^', comparison operators, octal or upper-case 0X/0B prefixes (not in the statement).")
 DESIGN_REF = "DESIGN.md §3 C06, §2.2"
 ASSUMPTIONS = ["conventional precedence as listed in the property", "spacing = runs of spaces between tokens"]
 
@@ -105,8 +105,22 @@ def _unary_runs():
     return [{"tree": t, "gaps": None, "env": {}, "org": 0x018123} for t in cases]
 
 
+def _wide_shifts():
+    """values are unbounded integers: a left shift by any count, narrowed again by a right shift, loses nothing"""
+    L = lambda v, r="d": ["lit", v, r]
+    cases = []
+    for n in (41, 63, 64, 65, 100, 127, 128, 129, 255, 256, 257, 258, 300, 511, 512, 513, 1000, 1024, 4097):
+        for k in (0, 2, 10):
+            cases.append(["bin", ">>", ["par", ["bin", "<<", L(1), L(n)]], L(n - k)])
+            cases.append(["bin", ">>", ["par", ["bin", "<<", L(0x1234 + k, "x"), L(n)]], L(n)])
+            cases.append(["bin", "&", ["par", ["bin", ">>", ["par", ["bin", "<<", ["neg", L(5 + k)], L(n)]], L(n - 3)]], L(0xFFFF, "x")])
+        cases.append(["bin", ">>", ["par", ["bin", "<<", ["par", ["bin", "<<", L(3), L(n)]], L(n)]], L(2 * n - 4)])
+        cases.append(["bin", ">>", ["par", ["bin", "*", ["par", ["bin", "<<", L(1), L(n)]], ["par", ["bin", "<<", L(1), L(n)]]]], L(2 * n - 9)])
+    return [{"tree": t, "gaps": None, "env": {}, "org": 0x018123} for t in cases]
+
+
 def enum_units(tier, seed):
-    cases = _systematic(tier, seed) + _unary_runs()
+    cases = _systematic(tier, seed) + _unary_runs() + _wide_shifts()
     units = [{"cases": cases[i::32]} for i in range(32)]
     return {"units": units, "exhaustive": tier == "thorough"}
 
